@@ -217,3 +217,6 @@ func (s *Stream) Raw() []byte { return s.sr.Raw }
 
 // Comments returns the number of comment lines seen (only safe after Done).
 func (s *Stream) Comments() int { return s.sr.Comments }
+
+// CommentsSoFar is safe to call while the stream is being read.
+func (s *Stream) CommentsSoFar() int { return int(s.sr.ncomm.Load()) }
